@@ -4,6 +4,7 @@ import ChythonModel.Props.C12
 import ChythonModel.Proofs.C20Parity
 import ChythonModel.Proofs.C20Graph
 import ChythonModel.Proofs.C20Bonds
+import ChythonModel.Proofs.C20Conformers
 /-!
 # C20 — RDKit bridge preserves structure and configuration in both directions
 
@@ -589,5 +590,215 @@ example : AdjWF [(1, [(2, ⟨1, none⟩), (3, ⟨2, none⟩)]), (2, [(1, ⟨1, n
           have e2 : (n == 2) = false := by simp [h2]
           have e3 : (n == 3) = false := by simp [h3]
           simp [nbrKeys, List.lookup, e1, e2, e3] at h⟩
+
+/-! ## conformers (`_conformers` ↔ RDKit conformers) -/
+
+/-- `{n: v for n, v in enumerate(positions, 1)}`: atom number `i + 1` ↦ the position at index `i`; no key `0` -/
+theorem keyed_lookup (ps : List P3) : (keyed ps).lookup 0 = none ∧ ∀ i, (keyed ps).lookup (i + 1) = ps[i]? := by
+  have gen : ∀ (ps : List P3) (s : Nat), (∀ k, k < s → ((List.range' s ps.length).zip ps).lookup k = none) ∧
+      ∀ i, ((List.range' s ps.length).zip ps).lookup (s + i) = ps[i]? := by
+    intro ps
+    induction ps with
+    | nil => intro s; simp [List.lookup]
+    | cons p rest ih =>
+      intro s
+      obtain ⟨h1, h2⟩ := ih (s + 1)
+      constructor
+      · intro k hk
+        have hb : (k == s) = false := by simp; omega
+        simp only [List.length_cons, List.range'_succ, List.zip_cons_cons, List.lookup, hb]
+        exact h1 k (by omega)
+      · intro i
+        cases i with
+        | zero => simp [List.range'_succ, List.lookup]
+        | succ j =>
+          have hb : (s + (j + 1) == s) = false := by simp
+          simp only [List.length_cons, List.range'_succ, List.zip_cons_cons, List.lookup, hb, List.getElem?_cons_succ]
+          have := h2 j
+          rwa [show s + 1 + j = s + (j + 1) by omega] at this
+  obtain ⟨h1, h2⟩ := gen ps 1
+  refine ⟨h1 0 (by omega), fun i => ?_⟩
+  have := h2 i
+  rwa [show 1 + i = i + 1 by omega] at this
+
+/-- one conformer dict, read in ITS OWN key order, whatever that is: when its keys are atoms of the molecule and the atom added
+last is among them, the RDKit conformer holds at index `i` the dict's value for the `i`-th atom — the origin for an atom the
+dict does not mention (`SetAtomPosition` grows the conformer with origins). -/
+theorem conformer_positions (ids : List Nat) (hnd : ids.Nodup) (d : List (Nat × P3)) (hk : (d.map (·.1)).Nodup)
+    (hsub : ∀ e ∈ d, e.1 ∈ ids) (hlast : ∀ l, ids.getLast? = some l → l ∈ d.map (·.1)) :
+    fillConf ids d [] = .ok (ids.map fun n => (d.lookup n).getD origin) := by
+  obtain ⟨ps', hps⟩ := fillConf_ok ids d [] hsub
+  obtain ⟨_, hin, hub⟩ := fillConf_length ids d [] ps' hps
+  have hget := fillConf_getD ids hnd d [] ps' hps hk
+  have hle : ps'.length ≤ ids.length :=
+    hub ids.length (Nat.zero_le _) (fun e _ i hi => index?_lt ids e.1 i hi)
+  have hge : ids.length ≤ ps'.length := by
+    cases hl : ids.getLast? with
+    | none =>
+      have : ids = [] := by simpa using hl
+      subst this; simp
+    | some l =>
+      obtain ⟨e, he, hel⟩ := List.mem_map.mp (hlast l hl)
+      have hmem : l ∈ ids := List.mem_of_getLast? hl
+      obtain ⟨i, _, hi⟩ := idxOf_of_mem hmem
+      have hpos : 0 < ids.length := List.length_pos_of_mem hmem
+      have hlastidx : ids[ids.length - 1]? = some l := by
+        rw [List.getLast?_eq_getElem?] at hl; exact hl
+      have : ids.length - 1 = i := getElem?_index_nodup hnd hi hlastidx
+      have := hin e he i (by rw [hel]; exact hi)
+      omega
+  rw [hps]
+  congr 1
+  apply List.ext_getElem (by simp; omega)
+  intro j h1 h2
+  have hj : j < ids.length := by simpa using h2
+  have := hget j
+  rw [List.getD_eq_getElem?_getD, List.getElem?_eq_getElem h1, List.getElem?_eq_getElem hj] at this
+  simp only [Option.getD_some] at this
+  rw [this]
+  simp only [List.getElem_map]
+  cases d.lookup ids[j] <;> simp [origin]
+
+/-- a well-formed `_conformers` entry for the atoms `ids`: a dict (distinct keys) over atoms of the molecule that mentions the
+atom added last (every complete dict does, in any key order) -/
+def ConfDict (ids : List Nat) (d : List (Nat × P3)) : Prop :=
+  (d.map (·.1)).Nodup ∧ (∀ e ∈ d, e.1 ∈ ids) ∧ ∀ l, ids.getLast? = some l → l ∈ d.map (·.1)
+
+example : ConfDict [7, 3, 5] [(5, (1, 2, 3)), (7, (4, 5, 6)), (3, (0, 0, 1))] := by
+  refine ⟨by decide, by decide, ?_⟩
+  intro l h; simp at h; subst h; decide
+
+theorem addConformers_ok (ids : List Nat) (hnd : ids.Nodup) : ∀ (confs : List (List (Nat × P3))) (cs : List RConf),
+    (∀ d ∈ confs, ConfDict ids d) →
+    addConformers ids confs cs = .ok (cs ++ confs.map fun d => ⟨true, ids.map fun n => (d.lookup n).getD origin⟩) := by
+  intro confs
+  induction confs with
+  | nil => intro cs _; simp [addConformers]
+  | cons d rest ih =>
+    intro cs h
+    obtain ⟨h1, h2, h3⟩ := h d List.mem_cons_self
+    have := ih (cs ++ [⟨true, ids.map fun n => (d.lookup n).getD origin⟩]) (fun d' hd' => h d' (List.mem_cons_of_mem _ hd'))
+    simp only [addConformers, conformer_positions ids hnd d h1 h2 h3, addConf, List.length_map, if_true]
+    rw [this]
+    simp
+
+/-- **`to_rdkit_molecule`, conformers.** For a molecule with atoms `ids` (in `_atoms` order) at `xy` and ANY list of well-formed
+conformer dicts, each in its own key order, the RDKit molecule receives: first the 2-D conformer of the `xy` (z = 0), then one 3-D
+conformer per dict, in order, holding at index `i` the dict's position of the `i`-th atom. Nothing raises. -/
+theorem conformers_to (ids : List Nat) (hnd : ids.Nodup) (xy : List (Int × Int)) (hxy : ids.length = xy.length)
+    (confs : Option (List (List (Nat × P3)))) (hd : ∀ l, confs = some l → ∀ d ∈ l, ConfDict ids d) :
+    toConformers ids xy confs = .ok (⟨false, xy.map fun (x, y) => (x, y, 0)⟩ ::
+      (confs.getD []).map fun d => ⟨true, ids.map fun n => (d.lookup n).getD origin⟩) := by
+  have hz : ((ids.zip xy).map fun (n, x, y) => (n, ((x, y, 0) : P3))) = ids.zip (xy.map fun (x, y) => ((x, y, 0) : P3)) := by
+    rw [List.zip_map_right]
+    apply List.map_congr_left
+    intro a _; rfl
+  have hkeys : ((ids.zip (xy.map fun (x, y) => ((x, y, 0) : P3))).map (·.1)) = ids := by
+    rw [List.map_fst_zip]; simp [hxy]
+  have h0 : fillConf ids ((ids.zip xy).map fun (n, x, y) => (n, ((x, y, 0) : P3))) [] =
+      .ok (xy.map fun (x, y) => ((x, y, 0) : P3)) := by
+    rw [hz, conformer_positions ids hnd _ (by rw [hkeys]; exact hnd)
+      (by intro e he; exact (List.of_mem_zip (show (e.1, e.2) ∈ _ from he)).1)
+      (by intro l hl; rw [hkeys]; exact List.mem_of_getLast? hl)]
+    rw [lookup_zip_nodup ids _ hnd (by simp [hxy])]
+  unfold toConformers
+  simp only [h0, addConf, List.length_map, ← hxy, if_true, List.nil_append]
+  cases confs with
+  | none => simp
+  | some l =>
+    simp only [Option.getD_some]
+    rw [addConformers_ok ids hnd l _ (hd l rfl)]
+    simp
+
+/-- **`from_rdkit_molecule`, conformers** (every RDKit conformer has one position per atom): `xy` are x, y of the FIRST conformer
+whatever its flag; `_conformers` are the 3-D conformers in order, keyed by `keyed` (1 … N); the attribute stays unset when there
+is no 3-D conformer; no conformer at all leaves the coordinates alone. -/
+theorem conformers_from (n : Nat) (c0 : RConf) (rest : List RConf) (h0 : c0.pos.length = n) :
+    fromConformers n [] = (none, none) ∧
+    (fromConformers n (c0 :: rest)).1 = some (c0.pos.map fun (x, y, _) => (x, y)) ∧
+    (fromConformers n (c0 :: rest)).2 =
+      (if (c0 :: rest).all (fun c => !c.is3D) then none else some (((c0 :: rest).filter (·.is3D)).map fun c => keyed c.pos)) := by
+  refine ⟨rfl, ?_, ?_⟩
+  · simp only [fromConformers, Option.some.injEq]
+    apply List.ext_getElem (by simp [h0])
+    intro i h1 h2
+    have hi : i < c0.pos.length := by simpa using h2
+    simp [List.getElem?_eq_getElem hi]
+  · simp only [fromConformers]
+    by_cases hall : (c0 :: rest).all (fun c => !c.is3D) = true
+    · have : (c0 :: rest).filter (·.is3D) = [] := by
+        rw [List.filter_eq_nil_iff]
+        intro c hc
+        have := List.all_eq_true.mp hall c hc
+        simpa using this
+      simp [hall, this]
+    · have hne : (c0 :: rest).filter (·.is3D) ≠ [] := by
+        intro hnil
+        apply hall
+        rw [List.all_eq_true]
+        intro c hc
+        have := (List.filter_eq_nil_iff.mp hnil) c hc
+        simpa using this
+      simp only [hall]
+      simp [hne]
+
+/-- **conformer round trip** (RDKit as the identity on conformers): `from(to(m))` has the same `xy`, and `_conformers` is the same
+list in the same order with every dict re-keyed by atom position (`keyed`): position `i` holds what the dict held for the `i`-th
+atom — independent of the key order of each dict. An absent attribute and an empty list both come back as "absent". -/
+theorem conformers_roundtrip (ids : List Nat) (hnd : ids.Nodup) (xy : List (Int × Int)) (hxy : ids.length = xy.length)
+    (confs : Option (List (List (Nat × P3)))) (hd : ∀ l, confs = some l → ∀ d ∈ l, ConfDict ids d) :
+    ∃ cs, toConformers ids xy confs = .ok cs ∧
+      fromConformers ids.length cs =
+        (some xy, if (confs.getD []).isEmpty then none
+                  else some ((confs.getD []).map fun d => keyed (ids.map fun n => (d.lookup n).getD origin))) := by
+  refine ⟨_, conformers_to ids hnd xy hxy confs hd, ?_⟩
+  have hfil : ∀ (l : List (List (Nat × P3))),
+      ((l.map fun d => (⟨true, ids.map fun n => (d.lookup n).getD origin⟩ : RConf)).filter (·.is3D)) =
+        l.map fun d => ⟨true, ids.map fun n => (d.lookup n).getD origin⟩ := by
+    intro l; rw [List.filter_eq_self]; intro c hc
+    obtain ⟨d, _, rfl⟩ := List.mem_map.mp hc; rfl
+  simp only [fromConformers, List.filter_cons, Bool.false_eq_true, if_false, hfil, List.map_map, List.isEmpty_map]
+  congr 1
+  · congr 1
+    apply List.ext_getElem (by simp [hxy])
+    intro i h1 h2
+    have hi : i < xy.length := by simpa using h2
+    simp [hi]
+
+/-- error branches of the conformer loop: a key that is no atom of the molecule is the `KeyError` of `mapping[n]`; a dict over
+atoms of the molecule that lacks the atom added last leaves the conformer short and `AddConformer` refuses it (`RuntimeError`) -/
+theorem conformer_error_branches (ids : List Nat) (d : List (Nat × P3)) (rest : List (List (Nat × P3)))
+    (cs : List RConf) :
+    ((∃ e ∈ d, e.1 ∉ ids) → addConformers ids (d :: rest) cs = .error (.py .keyError)) ∧
+    ((∀ e ∈ d, e.1 ∈ ids) → (∃ l, ids.getLast? = some l ∧ l ∉ d.map (·.1)) →
+      addConformers ids (d :: rest) cs = .error .runtime) := by
+  constructor
+  · intro h
+    simp [addConformers, fillConf_unknown ids d [] h]
+  · intro hsub ⟨l, hl, hnot⟩
+    obtain ⟨ps', hps⟩ := fillConf_ok ids d [] hsub
+    obtain ⟨_, _, hub⟩ := fillConf_length ids d [] ps' hps
+    have hmem : l ∈ ids := List.mem_of_getLast? hl
+    have hpos : 0 < ids.length := List.length_pos_of_mem hmem
+    have hlastidx : ids[ids.length - 1]? = some l := by
+      rw [List.getLast?_eq_getElem?] at hl; exact hl
+    have hshort : ps'.length ≤ ids.length - 1 := by
+      apply hub _ (Nat.zero_le _)
+      intro e he i hi
+      have hlt := index?_lt ids e.1 i hi
+      have hne : i ≠ ids.length - 1 := by
+        intro heq
+        have h1 := index?_getElem ids e.1 i hi
+        rw [heq, hlastidx] at h1
+        have : l = e.1 := Option.some.inj h1
+        exact hnot (List.mem_map.mpr ⟨e, he, this.symm⟩)
+      omega
+    have : ¬ ps'.length = ids.length := by omega
+    simp [addConformers, hps, addConf, this]
+
+example : addConformers [7, 3, 5] [[(5, (1, 2, 3)), (7, (4, 5, 6))]] [] =
+    .ok [⟨true, [(4, 5, 6), (0, 0, 0), (1, 2, 3)]⟩] := by decide
+example : addConformers [7, 3, 5] [[(7, (4, 5, 6)), (3, (1, 1, 1))]] [] = .error .runtime := by decide
+example : addConformers [7, 3, 5] [[(7, (4, 5, 6)), (9, (1, 1, 1)), (5, (0, 0, 0))]] [] = .error (.py .keyError) := by decide
 
 end ChythonModel.Props.C20
